@@ -17,7 +17,8 @@ RULE = ("(a) Hypothesis RuleBasedStateMachine: rules new_solver(problem recipe, 
         "A-B-A), its search information must pass the C06 invariants and every Solution object ever obtained must "
         "report the optimum of its own solver's history. (b) exhaustive: ALL interleavings of two solvers with 4 "
         "single steps each (70) and of three solvers with 2 steps each (90) for Hypothesis-drawn problem tuples. "
-        "Problems have N=1..7; a solver may be handed the very SolverParameters object of another live solver, or "
+        "Problems have N=1..7 or are shipped benchmark problems (incl. Grishagin); SolverParameters.startPoint and "
+        "refineSolution may be set; a solver may be handed the very SolverParameters object of another live solver, or "
         "none at all (the shared default). Non-trivial (a): a Solution was read, then another solver was created or stepped, then the first Solution "
         "was checked again. Distinct = distinct rule sequence / (problems, interleaving).")
 ASSUMPTIONS = [
